@@ -139,6 +139,23 @@ def gen_error(lines):
         lines.append("  | .%s => %s" % (v, lean_bytes(rust_str_bytes(msgs[v]))))
     lines.append("")
     lines.append("def allCodes : List Code := [%s]" % ", ".join("." + v for v in plain))
+    # `impl From<Error> for io::Error`: an Io error gives back the inner io::Error; the other categories map to an ErrorKind
+    body = fn_body(t, r"impl From<Error> for io::Error \{")
+    inner = re.search(r"if let ErrorCode::Io\(err\) = j\.err\.code \{\s*err\s*\} else \{", body or "")
+    if not inner: miss("error.into_io.inner", "`if let ErrorCode::Io(err) = j.err.code { err } else {` not found")
+    arms = re.findall(r"((?:Category::\w+\s*\|?\s*)+)=>\s*io::Error::new\(ErrorKind::(\w+), j\)", body or "")
+    kinds = {}
+    for lhs, kind in arms:
+        for c in re.findall(r"Category::(\w+)", lhs): kinds[c.lower()] = kind
+    lines.append("")
+    lines.append("/-- `impl From<Error> for io::Error`: the `ErrorKind` given to a non-Io error, by category (an Io error returns the")
+    lines.append("    wrapped `io::Error` itself, kind unchanged: `%s`) -/" % ("if let ErrorCode::Io(err) = j.err.code { err }" if inner else "NOT FOUND"))
+    lines.append("def intoIoKind : Cat → Option (List UInt8)")
+    for c in ["syntax", "data", "eof"]:
+        if c not in kinds: miss("error.into_io." + c, "no arm for Category::%s" % c)
+        lines.append("  | .%s => %s" % (c, ("some " + lean_bytes(kinds[c].encode())) if c in kinds else "none"))
+    lines.append("  | .io => none")
+    lines.append("def intoIoKeepsInner : Bool := %s" % ("true" if inner else "false"))
 
 
 # ------------------------------------------------------------------ de.rs constants (C01 C10–C14)
